@@ -21,7 +21,7 @@
    unbounded integers; GNUHashTable.get_symbol read the chain from the shared stream cursor);
    the model mirrors the repaired code, so every theorem is at full strength. *)
 From PV Require Import Base.Outcome Base.Fmt Base.Prim.
-From PV Require Import Gen.ElfLayouts Spec.ElfGabi Spec.C03Sym Spec.C03Hash Model.C03Sections Model.C03Hash.
+From PV Require Import Gen.ElfLayouts Gen.PyFuns Spec.ElfGabi Spec.C03Sym Spec.C03Hash Model.C03Sections Model.C03Hash.
 From PV Require Import Proofs.C03Tables Proofs.C03HashFn Proofs.C03Sysv Proofs.C03Gnu Proofs.C03Sym Proofs.C03Image.
 Open Scope list_scope.
 Open Scope Z_scope.
@@ -124,6 +124,21 @@ Print Assumptions C03_elf_hash_spec.
 Theorem C03_gnu_hash_spec : forall key, gnu_hash_m key = gnu_hash key.
 Proof. exact gnu_hash_spec. Qed.
 Print Assumptions C03_gnu_hash_spec.
+
+(* the same, stated of the functions TRANSLATED from the live source on every run (Gen/PyFuns.v):
+   an edit of ELFHashTable.elf_hash / GNUHashTable.gnu_hash changes these terms and the proofs are re-checked *)
+Theorem C03_gen_elf_hash_spec : forall name, gen_elf_hash name = sysv_hash name.
+Proof. exact gen_elf_hash_spec. Qed.
+Print Assumptions C03_gen_elf_hash_spec.
+
+Theorem C03_gen_gnu_hash_spec : forall key, gen_gnu_hash key = gnu_hash key.
+Proof. exact gen_gnu_hash_spec. Qed.
+Print Assumptions C03_gen_gnu_hash_spec.
+
+(* and they are the hand models the lookup theorems below are about *)
+Theorem C03_gen_hash_models : forall bs, gen_elf_hash bs = elf_hash bs /\ gen_gnu_hash bs = gnu_hash_m bs.
+Proof. exact (fun bs => conj (gen_elf_hash_model bs) (gen_gnu_hash_model bs)). Qed.
+Print Assumptions C03_gen_hash_models.
 
 Theorem C03_sysv_hash_recurrence : forall name c,
   sysv_hash [] = 0 /\ sysv_hash (name ++ [c]) = sysv_hash_step (sysv_hash name) c /\ 0 <= sysv_hash name < 2 ^ 28.
